@@ -121,6 +121,8 @@ structure Layout (F : FTy) (p eb : Nat) : Prop where
   heb : 2 ≤ eb
   heb16 : eb ≤ 16
   hL : 63 ≤ 2 ^ (eb - 1) - 1 + (p - 1) - 1
+  maxMant : F.C.maxMantissaFastPath = ((2 ^ p : Nat) : Int)
+  hpb : p + 1 ≤ 2 ^ (eb - 1) - 1
 
 theorem layout_f64 : Layout FTy.f64 53 11 := by
   constructor <;> decide
